@@ -207,9 +207,11 @@ _parts("C10", dict(pkg="props", test="TestC10Overflow", single=True), dict(pkg="
 PROPS["C10"]["rule"] += ("; plus overflow bursts (reader parked, max_queued_events + delta alternating attribute changes, delta from the seed; 1 burst quick / 10 thorough): ErrEventOverflow must arrive on Errors and nothing else (at most three values per burst), and a second burst on the same Watcher must be announced again, "
                          "then the exact oracle applies again to new operations and Add/Remove of a fresh directory must work; plus the name-length sweep of C01 (entry names of 1..255 bytes incl. every 16k-1/16k/16k+1, 239..255, "
                          "multi-byte and non-UTF-8 units): nothing may appear on Errors")
-_parts("C11", dict(pkg="props", test="TestC11Threads", checks_scale=0.25), dict(pkg="props", test="TestC11Ring", single=True))
+_parts("C11", dict(pkg="props", test="TestC11Threads", checks_scale=0.25), dict(pkg="props", test="TestC11Ring", single=True), dict(pkg="props", test="TestC11Straddle", single=True))
+_parts("C14", dict(pkg="props", test="TestC14Straddle", single=True))
+PROPS["C14"]["rule"] += "; plus three bursts of ~2047 creations followed by a move between two watched directories whose two notifications fall into different reads of the unbuffered Watcher (the Create must name the old name as it does for a buffered one)"
 PROPS["C11"]["rule"] += ("; plus threaded mode: 2-8 goroutines each moving its own uniquely named file 3-25 times between two watched directories and an unwatched one; every Create is paired by name with the move that produced it "
-                         "(old name iff the source was covered); and ring cases: 9..30 unmatched moves out, then moves in from outside / between watched directories, quiescent and plugged")
+                         "(old name iff the source was covered); and ring cases: 9..30 unmatched moves out, then moves in from outside / between watched directories, quiescent and plugged; and moves whose two notifications fall into different 64 KiB reads")
 _parts("C04", dict(pkg="props", test="TestC04Exhaustive", enumerated=True))
 PROPS["C04"]["rule"] += ("; plus bounded-exhaustive enumeration: all sequences up to length 2 (quick) / 3 (thorough, split over the shards) over an alphabet of 28 symbols (Add and Remove of file, dir, symlink to each, hard link, second file, "
                          "missing path, path through a file, symlink loop, 300-byte name; 8 filesystem mutations), WatchList after every step, spelling chosen per occurrence from 7 forms, final probe for duplicate events")
